@@ -777,6 +777,39 @@ class Extractor:
                 return s
         return None
 
+    def _encode_scratch(self, let_stmt, name, init, stmts):
+        """`name` (bound by let_stmt of the block stmts to an array literal / repeat) is mentioned in the rest of the block
+        only as `&mut name`, the sole argument of an `encode_utf8` method call, and is not rebound there"""
+        n = init
+        while isinstance(n, dict) and n.get("k") == "paren":
+            n = n["e"]
+        if not isinstance(n, dict) or n.get("k") not in ("repeat", "array"):
+            return False
+        if let_stmt.get("pat", {}).get("k") != "ident" or let_stmt["pat"].get("by_ref") or let_stmt["pat"].get("sub") or let_stmt.get("else") is not None:
+            return False
+        idx = next((i for i, s in enumerate(stmts) if s is let_stmt), None)
+        if idx is None:
+            return False
+        ok = [True]
+        uses = [0]
+
+        def f(x, parents):
+            k = x.get("k")
+            if k == "path" and x.get("p") == name:
+                par = parents[-1] if parents else None
+                gp = parents[-2] if len(parents) > 1 else None
+                if par is not None and par.get("k") == "ref" and par.get("mut") and par.get("e") is x and gp is not None and \
+                        gp.get("k") == "mcall" and gp.get("m") == "encode_utf8" and len(gp.get("args") or []) == 1 and gp["args"][0] is par:
+                    uses[0] += 1
+                else:
+                    ok[0] = False
+            elif k == "ident" and x.get("name") == name:
+                ok[0] = False           # rebound (shadowing / closure parameter): keep it simple, refuse
+            elif k == "macro" and x.get("args") is None and re.search(r"(?<![\w.])%s(?!\w)" % re.escape(name), x.get("tokens", "")):
+                ok[0] = False
+        walk(stmts[idx + 1:], f)
+        return ok[0] and uses[0] > 0
+
     def stable(self, node):
         for p in _places(node):
             for m in self.mutated:
@@ -899,6 +932,13 @@ class Extractor:
                     b = irrefutable_bindings(st["pat"], rinit) if rinit is not None else {n: None for n in pat_names(st["pat"])}
                 for nm, v in b.items():
                     if v is not None and self.stable(v) and nm not in self.mutated:
+                        env[nm] = v
+                    elif rinit is not None and st["pat"].get("k") == "ident" and st["pat"].get("name") == nm and \
+                            self.stable(rinit) and self._encode_scratch(st, nm, rinit, stmts):
+                        v = rinit
+                        # `let mut buf = [0u8; N]` used only as the output buffer of char::encode_utf8: what it held before a
+                        # call is never read (the returned str covers exactly the bytes that call wrote), so the binding
+                        # stands for its initialiser wherever it is mentioned
                         env[nm] = v
                     else:
                         env.pop(nm, None)
